@@ -265,4 +265,112 @@ theorem parseRange_string (b s n : Nat) (hb : 2 ≤ b) (hb36 : b ≤ 36) :
   rw [this, splitAt1_some '-' _ _ (stringByteBits_no_dash b s hb hb36)]
   simp [parseByteBits_string b _ hb hb36]
 
+/-! ### digit count: the integer specification of `mathx.DigitsInBase` -/
+
+theorem formatGo_fuel (b : Nat) (hb : 2 ≤ b) : ∀ f f' m, m < 2 ^ f → m < 2 ^ f' → 1 ≤ f → 1 ≤ f' →
+    formatBaseGo b f m [] = formatBaseGo b f' m [] := by
+  intro f
+  induction f with
+  | zero => intro f' m _ _ h; omega
+  | succ k ih =>
+    intro f' m h1 h2 _ h4
+    cases f' with
+    | zero => omega
+    | succ k' =>
+      rw [formatBaseGo_succ, formatBaseGo_succ]
+      by_cases hz : m / b = 0
+      · simp [hz]
+      · simp only [hz, if_false]
+        have d1 := div_lt_pow b m k hb h1
+        have d2 := div_lt_pow b m k' hb h2
+        have p1 : 1 ≤ k := Nat.pos_of_ne_zero (fun h0 => by
+          subst h0; rw [Nat.pow_zero] at d1; exact hz (Nat.lt_one_iff.mp d1))
+        have p2 : 1 ≤ k' := Nat.pos_of_ne_zero (fun h0 => by
+          subst h0; rw [Nat.pow_zero] at d2; exact hz (Nat.lt_one_iff.mp d2))
+        rw [ih k' (m / b) d1 d2 p1 p2]
+
+/-- the number of digits satisfies the schoolbook recursion -/
+theorem formatBase_length_rec (b n : Nat) (hb : 2 ≤ b) :
+    (formatBase b n).length = if n / b = 0 then 1 else (formatBase b (n / b)).length + 1 := by
+  unfold formatBase
+  rw [formatBaseGo_succ]
+  by_cases hz : n / b = 0
+  · simp [hz]
+  · simp only [hz, if_false, List.length_append, List.length_singleton]
+    have hn : n < 2 ^ (n.log2 + 1) := Nat.lt_log2_self
+    have d1 := div_lt_pow b n n.log2 hb hn
+    have p1 : 1 ≤ n.log2 := Nat.pos_of_ne_zero (fun h0 => by
+      rw [h0, Nat.pow_zero] at d1; exact hz (Nat.lt_one_iff.mp d1))
+    rw [formatGo_fuel b hb n.log2 ((n / b).log2 + 1) (n / b) d1 Nat.lt_log2_self p1 (by omega)]
+
+/-- more digits are never needed for a smaller number -/
+theorem formatBase_length_mono (b : Nat) (hb : 2 ≤ b) : ∀ m n, n ≤ m →
+    (formatBase b n).length ≤ (formatBase b m).length := by
+  intro m
+  induction m using Nat.strongRecOn with
+  | _ m ih =>
+    intro n hnm
+    rw [formatBase_length_rec b n hb, formatBase_length_rec b m hb]
+    have hdiv : n / b ≤ m / b := Nat.div_le_div_right hnm
+    by_cases hm : m / b = 0
+    · have : n / b = 0 := Nat.eq_zero_of_le_zero (hm ▸ hdiv)
+      simp [hm, this]
+    · by_cases hn : n / b = 0
+      · simp [hm, hn]
+      · simp only [hm, hn, if_false]
+        have hlt : m / b < m := Nat.div_lt_self (by
+          rcases Nat.eq_zero_or_pos m with h0 | h0
+          · subst h0; simp at hm
+          · exact h0) (by omega)
+        have := ih (m / b) hlt (n / b) hdiv
+        exact Nat.succ_le_succ this
+
+theorem digitsNeeded_mono (b n m : Nat) (hb : 2 ≤ b) (h : n ≤ m) : digitsNeeded b n ≤ digitsNeeded b m := by
+  unfold digitsNeeded
+  have := formatBase_length_mono b hb m n h
+  omega
+
+/-- `b^k` has `k+1` digits and `b^(k+1) - 1` has `k+1` digits -/
+theorem formatBase_length_pow (b : Nat) (hb : 2 ≤ b) : ∀ k,
+    (formatBase b (b ^ k)).length = k + 1 ∧ (formatBase b (b ^ (k + 1) - 1)).length = k + 1 := by
+  intro k
+  have hb0 : 0 < b := by omega
+  induction k with
+  | zero =>
+    constructor
+    · rw [formatBase_length_rec b _ hb]
+      have : b ^ 0 / b = 0 := by rw [Nat.pow_zero]; exact Nat.div_eq_of_lt (by omega)
+      rw [if_pos this]
+    · rw [formatBase_length_rec b _ hb]
+      have : (b ^ (0 + 1) - 1) / b = 0 := by
+        rw [Nat.zero_add, Nat.pow_one]; exact Nat.div_eq_of_lt (by omega)
+      rw [if_pos this]
+  | succ k ih =>
+    have hpos : 0 < b ^ (k + 1) := Nat.pow_pos hb0
+    constructor
+    · rw [formatBase_length_rec b _ hb]
+      have e : b ^ (k + 1) / b = b ^ k := by
+        rw [Nat.pow_succ]; exact Nat.mul_div_cancel _ hb0
+      have hk : 0 < b ^ k := Nat.pow_pos hb0
+      rw [e]
+      have : ¬ b ^ k = 0 := by omega
+      rw [if_neg this, ih.1]
+    · rw [formatBase_length_rec b _ hb]
+      have e : (b ^ (k + 1 + 1) - 1) / b = b ^ (k + 1) - 1 := by
+        have h1 : b ^ (k + 1 + 1) - 1 = (b - 1) + b * (b ^ (k + 1) - 1) := by
+          rw [Nat.pow_succ, Nat.mul_sub, Nat.mul_one, Nat.mul_comm b (b ^ (k + 1))]
+          have : b ≤ b ^ (k + 1) * b := by
+            calc b = 1 * b := by simp
+              _ ≤ b ^ (k + 1) * b := Nat.mul_le_mul_right b hpos
+          omega
+        rw [h1, Nat.add_mul_div_left _ _ hb0, Nat.div_eq_of_lt (by omega)]
+        simp
+      rw [e]
+      have h2 : 2 ≤ b ^ (k + 1) := by
+        calc 2 ≤ b := hb
+          _ = b ^ 1 := by simp
+          _ ≤ b ^ (k + 1) := Nat.pow_le_pow_right hb0 (by omega)
+      have : ¬ b ^ (k + 1) - 1 = 0 := by omega
+      rw [if_neg this, ih.2]
+
 end Proofs.C10Num
